@@ -20,22 +20,23 @@ theorem mem_zip3 (ranges : List (Rat × Rat)) (constants : List Rat)
     exact ⟨i, hlt, by simp [List.getElem_zip]⟩
 
 /-- the four rows of one block -/
-def pwBlock (x y : Var) (M : Rat) (name : String) (t : Nat × (Rat × Rat) × Rat) : List Row :=
+def pwBlock (x y : Var) (M My : Rat) (name : String) (t : Nat × (Rat × Rat) × Rat) : List Row :=
   [ rowGe [(1, x), (-M, zVar name t.1)] (t.2.1.1 - M),
     rowLe [(1, x), (M, zVar name t.1)] (t.2.1.2 + M),
-    rowLe [(1, y), (M, zVar name t.1)] (t.2.2 + M),
-    rowGe [(1, y), (-M, zVar name t.1)] (t.2.2 - M) ]
+    rowLe [(1, y), (My, zVar name t.1)] (t.2.2 + My),
+    rowGe [(1, y), (-My, zVar name t.1)] (t.2.2 - My) ]
 
 theorem piecewise_rows (x y : Var) (ranges : List (Rat × Rat)) (constants : List Rat) (name : String) :
     (piecewise x y ranges constants name).rows =
       [rowEq ((List.range ranges.length).map (fun i => ((1:Rat), zVar name i))) 1]
       ++ ((List.range ranges.length).zip (ranges.zip constants)).flatMap
-          (pwBlock x y (bigM ranges) name) := rfl
+          (pwBlock x y (bigM ranges) (bigMy constants) name) := rfl
 
-theorem pwBlock_holds (a : Asg) (x y : Var) (M : Rat) (name : String) (t : Nat × (Rat × Rat) × Rat) :
-    (∀ r ∈ pwBlock x y M name t, r.holds a) ↔
+theorem pwBlock_holds (a : Asg) (x y : Var) (M My : Rat) (name : String)
+    (t : Nat × (Rat × Rat) × Rat) :
+    (∀ r ∈ pwBlock x y M My name t, r.holds a) ↔
       (t.2.1.1 - M ≤ a x + -M * a (zVar name t.1) ∧ a x + M * a (zVar name t.1) ≤ t.2.1.2 + M ∧
-       a y + M * a (zVar name t.1) ≤ t.2.2 + M ∧ t.2.2 - M ≤ a y + -M * a (zVar name t.1)) := by
+       a y + My * a (zVar name t.1) ≤ t.2.2 + My ∧ t.2.2 - My ≤ a y + -My * a (zVar name t.1)) := by
   simp only [pwBlock, List.mem_cons, List.not_mem_nil, or_false, forall_eq_or_imp, forall_eq,
     Row.holds, rowLe, rowGe, evalTerms, List.map, List.sum_cons, List.sum_nil]
   simp [Rat.add_zero]
@@ -125,7 +126,7 @@ theorem piecewise_sound_proof (a : Asg) (x y : Var) (ranges : List (Rat × Rat))
   obtain ⟨i, hi, hzi⟩ := exists_one_of_sum _ _ hz hsum'
   have hi' : i < ranges.length := List.mem_range.1 hi
   refine ⟨i, hi', ?_⟩
-  have hb := (pwBlock_holds a x y (bigM ranges) name (i, ranges[i], constants[i]'(hlen ▸ hi'))).1
+  have hb := (pwBlock_holds a x y (bigM ranges) (bigMy constants) name (i, ranges[i], constants[i]'(hlen ▸ hi'))).1
     (fun r hr => hrows r (List.mem_append_right _
       (List.mem_flatMap.2 ⟨_, (mem_zip3 ranges constants hlen _).2 ⟨i, hi', rfl⟩, hr⟩)))
   simp only [hzi] at hb
@@ -149,12 +150,10 @@ theorem pwAsg_other (a : Asg) (name : String) (j : Nat) (v : Var) (hv : ∀ i, v
     simp [pwAsg, h1]
   | _ => rfl
 
-theorem piecewise_complete_partial_proof (a : Asg) (x y : Var) (ranges : List (Rat × Rat))
+theorem piecewise_complete_proof (a : Asg) (x y : Var) (ranges : List (Rat × Rat))
     (constants : List Rat) (name : String) (hlen : ranges.length = constants.length)
     (hLU : ∀ r ∈ ranges, r.1 ≤ r.2) (j : Nat) (hj : j < ranges.length)
     (hx : (ranges[j]).1 ≤ a x ∧ a x ≤ (ranges[j]).2) (hy : a y = constants[j]'(hlen ▸ hj))
-    (hM : ∀ i, ∀ hi : i < constants.length,
-        constants[i] - bigM ranges ≤ a y ∧ a y ≤ constants[i] + bigM ranges)
     (hfresh : ∀ i, zVar name i ≠ x ∧ zVar name i ≠ y) :
     ∃ a' : Asg, (∀ v, (∀ i, v ≠ zVar name i) → a' v = a v) ∧
       Sat a' (piecewise x y ranges constants name) := by
@@ -165,6 +164,10 @@ theorem piecewise_complete_partial_proof (a : Asg) (x y : Var) (ranges : List (R
     fun i hi => listMin_le _ _ (List.mem_map.2 ⟨ranges[i], List.getElem_mem hi, rfl⟩)
   have hmax : ∀ i (hi : i < ranges.length), ranges[i].2 ≤ listMax (ranges.map (·.2)) :=
     fun i hi => le_listMax _ _ (List.mem_map.2 ⟨ranges[i], List.getElem_mem hi, rfl⟩)
+  have hcmin : ∀ i (hi : i < constants.length), listMin constants ≤ constants[i] :=
+    fun i hi => listMin_le _ _ (List.getElem_mem hi)
+  have hcmax : ∀ i (hi : i < constants.length), constants[i] ≤ listMax constants :=
+    fun i hi => le_listMax _ _ (List.getElem_mem hi)
   constructor
   · intro col hcol
     obtain ⟨i, _, rfl⟩ := List.mem_map.1 hcol
@@ -182,7 +185,7 @@ theorem piecewise_complete_partial_proof (a : Asg) (x y : Var) (ranges : List (R
       constructor <;> intro u hu <;> cases hu <;> exact Rat.le_refl
     · obtain ⟨t, ht, hrt⟩ := List.mem_flatMap.1 h
       obtain ⟨i, hi, rfl⟩ := (mem_zip3 ranges constants hlen t).1 ht
-      refine (pwBlock_holds (pwAsg a name j) x y (bigM ranges) name _).2 ?_ r hrt
+      refine (pwBlock_holds (pwAsg a name j) x y (bigM ranges) (bigMy constants) name _).2 ?_ r hrt
       simp only [pwAsg_z, hxx, hyy]
       by_cases hij : i = j
       · subst hij
@@ -194,43 +197,29 @@ theorem piecewise_complete_partial_proof (a : Asg) (x y : Var) (ranges : List (R
         have h3 := hmin j hj
         have h4 := hmax j hj
         have h5 := hLU _ (List.getElem_mem hi)
-        have h6 := hM i (hlen ▸ hi)
-        simp only [bigM] at h6 ⊢
+        have h6 := hcmin i (hlen ▸ hi)
+        have h7 := hcmax i (hlen ▸ hi)
+        have h8 := hcmin j (hlen ▸ hj)
+        have h9 := hcmax j (hlen ▸ hj)
+        simp only [bigM, bigMy]
         grind
 
-theorem bigM_inst : bigM [(0,1),(2,3)] = 6 := by
-  simp only [bigM, listMax, listMin, List.map, List.foldl, List.headD]
-  have h1 : max (max (1:Rat) 1) 3 = 3 := by grind
-  have h2 : min (min (0:Rat) 0) 2 = 0 := by grind
-  rw [h1, h2]; grind
+/-- the user part of the regression instance: `x = 1/2`, everything else `0` -/
+def farAsg : Asg := fun v => if v = .ix "x" 0 then 1/2 else 0
 
-theorem piecewise_bigM_witness_proof :
-    ¬ ∃ a : Asg, a (.nm "x" "") = 1/2 ∧
-      Sat a (piecewise (.nm "x" "") (.nm "y" "") [(0,1),(2,3)] [0,100] "f") := by
-  rintro ⟨a, hx, hcols, hrows⟩
-  rw [piecewise_rows] at hrows
-  have hz : ∀ i ∈ List.range 2, a (zVar "f" i) = 0 ∨ a (zVar "f" i) = 1 := by
-    intro i hi
-    have := hcols { v := zVar "f" i, lb := 0, ub := some 1, isInt := true }
-      (List.mem_map.2 ⟨i, hi, rfl⟩)
-    obtain ⟨h0, h1, hz⟩ := this
-    exact int01 _ h0 (h1 1 rfl) (hz rfl)
-  have hz0 := hz 0 (by decide)
-  have hz1 := hz 1 (by decide)
-  have hsum := hrows _ (List.mem_append_left _ (List.mem_singleton.2 rfl))
-  have hs1 := hsum.1 1 rfl
-  have hs2 := hsum.2 1 rfl
-  simp only [rowEq, evalTerms, List.length_cons, List.length_nil, List.range_succ, List.range_zero,
-    List.nil_append, List.cons_append, List.map, List.sum_cons, List.sum_nil] at hs1 hs2
-  have hb0 := (pwBlock_holds a (.nm "x" "") (.nm "y" "") (bigM [(0,1),(2,3)]) "f" (0, (0,1), 0)).1
-    (fun r hr => hrows r (List.mem_append_right _
-      (List.mem_flatMap.2 ⟨_, (mem_zip3 [(0,1),(2,3)] [0,100] rfl _).2 ⟨0, by decide, rfl⟩, hr⟩)))
-  have hb1 := (pwBlock_holds a (.nm "x" "") (.nm "y" "") (bigM [(0,1),(2,3)]) "f" (1, (2,3), 100)).1
-    (fun r hr => hrows r (List.mem_append_right _
-      (List.mem_flatMap.2 ⟨_, (mem_zip3 [(0,1),(2,3)] [0,100] rfl _).2 ⟨1, by decide, rfl⟩, hr⟩)))
-  rw [bigM_inst] at hb0 hb1
-  simp only [hx] at hb0 hb1
-  rcases hz0 with h0 | h0 <;> rcases hz1 with h1 | h1 <;> rw [h0, h1] at hs1 hs2 <;>
-    simp only [h0, h1] at hb0 hb1 <;> grind
+theorem farAsg_x : farAsg (.ix "x" 0) = 1/2 := by simp [farAsg]
+theorem farAsg_y : farAsg (.ix "y" 0) = 0 := by simp [farAsg]
+
+theorem piecewise_far_constants_feasible_proof :
+    ∃ a : Asg, a (.ix "x" 0) = 1/2 ∧ a (.ix "y" 0) = 0 ∧
+      Sat a (piecewise (.ix "x" 0) (.ix "y" 0) [(0,1),(2,3)] [0,100] "f") := by
+  have hzx : ∀ i, Var.ix "x" 0 ≠ zVar "f" i := by intro i; simp [zVar]
+  have hzy : ∀ i, Var.ix "y" 0 ≠ zVar "f" i := by intro i; simp [zVar]
+  obtain ⟨a', hfr, hsat⟩ := piecewise_complete_proof farAsg (.ix "x" 0) (.ix "y" 0)
+    [(0,1),(2,3)] [0,100] "f" rfl
+    (by intro r hr; simp at hr; rcases hr with rfl | rfl <;> decide)
+    0 (by decide) (by rw [farAsg_x]; simp only [List.getElem_cons_zero]; grind) (by rw [farAsg_y]; rfl)
+    (fun i => ⟨(hzx i).symm, (hzy i).symm⟩)
+  exact ⟨a', by rw [hfr _ hzx, farAsg_x], by rw [hfr _ hzy, farAsg_y], hsat⟩
 
 end FP
